@@ -3,8 +3,8 @@ package main
 import (
 	"fmt"
 	"math"
-	"sync"
 	"math/rand"
+	"sync"
 
 	"github.com/yaricom/goNEAT/v4/neat/genetics"
 	neatmath "github.com/yaricom/goNEAT/v4/neat/math"
